@@ -58,6 +58,40 @@ Specification: spec/SourceLine.tla
     include-wrap variant; the wrapped runs (mnemonics as logged by the assembler) are validated by TLC
     (BodyCollect_Trace).  Not wrapped: lines with {SYM} in the mnemonic (expanded while a body is collected,
     documented in t_expandop), END / INCLUDE / EXITM / SHIFT, text using ALLARGS / ARGCOUNT / ATTRIBUTE.
+(S) SymScope + BodyCollect.LocalWrappable: THE SYMBOL SIDE OF THE MACRO WRAP - labels referenced from nested expansions.
+    The wraps above use `macro {GLOBALSYMBOLS}`; the property speaks of "a parameterless macro", and in a plain
+    `name MACRO` the labels of the text become LOCAL to the wrapper's expansion (manual: "Labels defined in macros always
+    are regarded as being local, unless GLOBALSYMBOLS was used").  The text then stays the same program only because a
+    reference from a nested expansion finds the labels of every expansion around it.  SymScope.tla transcribes
+    asmpars.c's local symbol spaces (MomLocHandle, the FirstLocHandle stack, Push/Pop/GetLocHandle, EnterIntSymbol's
+    choice local/global, FindLocNode: own space, then the stack from its top until an entry holds -1, then FindNode;
+    as.c *_Processor: a fresh space per repetition unless GLOBALSYMBOLS; table kept over the passes, handle counter
+    restarted) and states the meaning independently without handles (every executed statement has a chain of
+    expansion instances; a reference means the definition in the NEAREST instance of its chain, file level last).
+    Scoped programs: a chain of 0..3 nested constructs (MACRO call, REPT, IRP, IRPN, IRPC, WHILE; each default /
+    {GLOBALSYMBOLS} / {NOGLOBALSYMBOLS}), a label defined at level d and referenced at level r >= d (distance 0..3
+    expansion levels, one more under the wrapper) by value / IFDEF / DEFINED() / SYMTYPE() / IFUSED, behind or ahead
+    of the definition (second pass), before or behind the nested construct of its level (space restored by Pop),
+    with or without a definition of the same name at level 0 (nearest wins), plus a probe whether the label is
+    visible outside its expansion.  TLC checks ScopeAgree (transcription = meaning, under every wrapper),
+    WrapImmaterial (plain = INCLUDE = macro / macro {GLOBALSYMBOLS} / macro {NOGLOBALSYMBOLS}), ProgramValid and
+    prints each program with its code: quick 1206 programs / 3228 sources (all kinds and modes for one construct,
+    every kind at either level of two, MACRO/REPT chains of three), thorough 43434 programs / 131298 sources (all
+    kinds x modes at two levels with every reference kind, all kinds at three levels); each source must assemble to
+    the code TLC computed.  WHILE with a control parameter is accepted by the code but not described: SPEC-DRIFT only.
+    SymScope_MC_skipnearest.cfg: with the named deviation SkipNearest (walk starts at the second stack entry) TLC
+    reports ScopeAgree / WrapImmaterial violated.
+    Corpus: every golden source for which BodyCollect.LocalWrappable holds (all lines may stand in a macro body,
+    balanced, and no SECTION anywhere in the run - "the locality of labels inside macros is not influenced by
+    sections") is additionally assembled with the WHOLE main file in a plain `vwrap macro` (on top of the line
+    rewrites), verdict = .ori: quick the sources whose run expands a body at any depth (21), thorough all (about
+    125; files up to 1200 lines); the precondition of each such wrap is validated by TLC (BodyCollect_Trace,
+    WRAPLOCAL events).
+    Why added: all wraps used {GLOBALSYMBOLS} (labels stayed global) and the generated construct trees had no
+    labels, so a FindLocNode() that skips the directly enclosing expansion (references from a REPT/IRP body or a
+    macro call inside the wrapper: "symbol undefined", IFDEF silently the other branch) passed the golden tests and
+    the check.  Not covered: labels in STRUCT bodies or SECTIONs under a local wrapper, FORWARD/PUBLIC/GLOBAL,
+    temporary ($$, -/+) labels inside the generated programs, more than 3+1 expansion levels.
 (R) SourceLine_RL: the reader (ReadLnCont: physical lines, chunked fgets, CR/LF/^Z stripping, backslash
     continuation).  TLC checks for every chain of 1..4 physical lines x {LF, CR-LF per line, none at the end} x
     {nothing, blank, tab before the backslash} x comment behind the chain x buffer states (real 1024/128/128 and
@@ -109,6 +143,14 @@ Mutations of the real code tried on a scratch copy (selftest/C16-m*.py, selftest
      (second split of RPTC/RPTZ, C6x, uPD772x OP, #define)                           t_3206x t_7720 t_7725 + generated lines)
   m8 code6812.c Try2Split(): blank only (no tab)                  ctest passes       caught (t_6812 + generated lines)
   m9 codez80.c StripPref(): mnemonic behind ALTD ends at blank    ctest passes       caught (t_r2000 + generated lines)
+  m10 asmpars.c FindLocNode(): walk starts at FirstLocHandle->Next ctest passes       caught (generated scoped programs:
+     (directly enclosing expansion skipped)                                           distance 1 under the plain wrapper, plain
+                                                                                      nested constructs; whole-file plain-macro
+                                                                                      wraps of golden sources: 462 violations)
+  m11 asmpars.c FindLocNode(): own space only, no walk             (ctest not run)    caught (scoped programs replayed alone:
+                                                                                      576 of 3228 sources, every distance >= 1)
+  m12 asmpars.c FindLocNode(): walk stops after one stack entry    (ctest not run)    caught (scoped programs replayed alone:
+                                                                                      100 of 3228 sources, distances 2 and 3)
 ./check C16 --selftest shows the trace binding (a changed field of a recorded split event is rejected).
 """
 import os
@@ -168,7 +210,7 @@ def _files_for(name, items, fvec, revert=()):
 
 def _work(args):
     """one golden test: original run (records), nvar rewritten variants, localisation of a mismatch"""
-    (bdir, hooks, flavour, t, nvar, lvecs, fvecs, sd, npairs, nsplit, forms, gvecs) = args
+    (bdir, hooks, flavour, t, nvar, lvecs, fvecs, sd, npairs, nsplit, forms, gvecs, local_all) = args
     from vlib.build import Build
     import random
     b = Build(bdir, flavour, hooks)
@@ -210,8 +252,20 @@ def _work(args):
         # sources with body-collecting / paired constructs get the two wraps systematically
         plan.append({"kind": "file", "wrap": "macro", "blanklines": False, "crlf": "lf", "forced": True})
         plan.append({"kind": "file", "wrap": "include", "blanklines": False, "crlf": "lf", "forced": True})
+    # the whole main file in a PLAIN macro (its labels become local to the wrapper's expansion; references from nested
+    # expansions must still find them - SymScope.tla): where BodyCollect.LocalWrappable holds.  quick: the sources whose
+    # run expands a body anywhere (a nested expansion needs one), thorough: all
+    runops = sorted({rc_["opu"].upper() for rc_ in allrecs})
+    out["runops"] = runops
+    if hooks and (local_all or set(runops) & srcline.COLLECT_OPENS):
+        plan.append({"kind": "file", "wrap": "macrolocal", "blanklines": False, "crlf": "lf", "forced": True})
     for vi, fvec in enumerate(plan):
-        items, stats = srcline.rewrite_file(data, recs, fvec, lvecs, r, forms=forms, gvecs=gvecs)
+        items, stats = srcline.rewrite_file(data, recs, fvec, lvecs, r, forms=forms, gvecs=gvecs, runops=runops)
+        if fvec["wrap"] == "macrolocal":
+            if not stats["regions"]:
+                continue                      # precondition of the plain-macro wrap not met: nothing to assemble
+            out.setdefault("localwraps", []).extend(stats["region_ops"])
+            stats.pop("region_ops")
         main, extra = _files_for(name, items, fvec)
         want_tr = hooks and vi == 0 and npairs > 0
         v = _assemble_variant(b, t, main, extra, events="file,stmt,split" if want_tr else None)
@@ -357,6 +411,8 @@ def main(tier):
                         "TLC explores the line model up to 2 parameters per line over the stated token alphabet",
                         "white space inside a parameter is a field boundary only for the statement forms listed in "
                         "SourceLine_Nest.tla (Forms); white space inside expressions is left as written",
+                        "scoped programs (SymScope): at most 3 nested constructs + the wrapper, one label name, byte-sized "
+                        "addresses; the whole-file plain-macro wrap is applied only where BodyCollect.LocalWrappable holds",
                         "hooks: %s" % ("split/stmt events" if bld.hooks else "unavailable (black-box replay only)")]
     # (M)+(G) compound operand fields: runs beside the line model (its output is needed for the corpus rewrite)
     import concurrent.futures as cf
@@ -365,6 +421,10 @@ def main(tier):
     nest_pool = cf.ThreadPoolExecutor(max_workers=1)
     nest_fut = nest_pool.submit(lambda: [tlc.run("SourceLine_Nest", c_, workers=2 if quick else 4, timeout=1700, mem="4g")
                                          for c_ in nest_cfgs])
+    # (M)+(G) symbol spaces under the wrap (SymScope): initial states only = one TLC thread, runs beside the line model
+    scope_pool = cf.ThreadPoolExecutor(max_workers=1)
+    scope_fut = scope_pool.submit(lambda: tlc.run("SymScope_MC", "SymScope_MC.cfg" if quick else "SymScope_MC2.cfg",
+                                                  workers=1 if quick else 2, timeout=2400, mem="4g" if quick else "8g"))
     # (M) -------------------------------------------------------------------------------------------
     cfgs = ["SourceLine_MC.cfg"] if quick else ["SourceLine_MC3.cfg", "SourceLine_MCP.cfg"]
     for cfg in cfgs:
@@ -412,7 +472,7 @@ def main(tier):
         # make sure every file vector is used across the suite: rotate through the list
         fv = [fvecs[(ti * nvar + k) % len(fvecs)] for k in range(nvar)] if quick else fv[:nvar]
         jobs.append((bld.dir, bld.hooks, bld.flavour, t, nvar, lvecs, fv, seed(), 12 if quick else 200,
-                     25 if quick else None, forms, gvecs))
+                     25 if quick else None, forms, gvecs, not quick))
     with Phase("rewrite + assemble %d tests x %d variants" % (len(tests), nvar)):
         with cf.ProcessPoolExecutor(max_workers=NCPU) as ex:
             results = list(ex.map(_work, jobs, chunksize=1))
@@ -525,6 +585,51 @@ def main(tier):
     rep.part("construct_trees", trees=len(trees), programs=len(tjobs))
     if trees:
         rep.sample({"construct_tree_source": tjobs[-2]["sources"]["a.asm"], "expected_bytes": trees[-1]["bytes"]})
+    # (M)+(G) SymScope: labels of the text referenced from nested expansions, plain / INCLUDE / macro-wrapped -------
+    with Phase("TLC SymScope_MC (started beside the line model)"):
+        sc = tlc.must(scope_fut.result(), "SymScope_MC")
+    scope_pool.shutdown()
+    if sc.violation:
+        raise CheckError("SymScope_MC: the symbol-space model violates its invariants: %s" % sc.violation[:900])
+    rep.model("SymScope_MC", sc)
+    stree = [v for (tag, v) in sc.printed if tag == "OUT" and v.get("kind") == "scope"]
+    if not stree:
+        raise CheckError("SymScope_MC printed no programs")
+    sjobs, sidx = [], []
+    for si, sv in enumerate(stree):
+        for form in sv["forms"]:
+            sjobs.append({"sources": srcline.scope_sources(sv["tree"], form), "opts": ["-q"]})
+            sidx.append((si, form))
+    with Phase("scoped programs: %d programs x wrappers = %d sources" % (len(stree), len(sjobs))):
+        sres = aslrun.assemble_many(bld, sjobs)
+    for (si, form), job, res in zip(sidx, sjobs, sres):
+        sv = stree[si]
+        rep.evaluated()
+        rep.distinct(repr(job["sources"]), True)
+        got = [x for rec_ in res.parsed().data_records() for x in rec_.data] if res.p is not None else None
+        if res.rc != 0 or got != sv["bytes"]:
+            d = sv["desc"]
+            what = ("scoped program (%s; label defined at expansion level %d, referenced by %s at level %d, %s, %s the nested "
+                    "construct%s) %s: rc=%s code %s, the specification's code is %s; %s" % (
+                        " > ".join("%s%s" % (c["k"], "" if c["g"] == "default" else " {%s}" % c["g"]) for c in d["chain"]) or
+                        "no construct", d["d"], d["how"], d["r"], "behind the definition" if d["dir"] == "back" else
+                        "ahead of the definition", "before" if d["pos"] == "pre" else "behind",
+                        ", same name also defined at level 0" if d["shadow"] else "", form, res.rc, got, sv["bytes"],
+                        (res.out + res.err)[-200:]))
+            if sv["level"] != "manual":
+                rep.drift(what)         # control parameters of WHILE: accepted by the code, not in the manual
+            else:
+                rep.violation(what, case={"test": "(generated scoped program)", "scope": d, "tree": sv["tree"], "form": form,
+                                          "bytes": sv["bytes"]},
+                              files=dict(job["sources"]), key={"kind": "scope", "deviation": "none"})
+    rep.traces(len(sjobs))
+    rep.part("scoped_programs", programs=len(stree), sources=len(sjobs),
+             chains=len({repr(v["desc"]["chain"]) for v in stree}),
+             max_distance=max(v["desc"]["r"] - v["desc"]["d"] for v in stree),
+             wrappers=sorted({f for v in stree for f in v["forms"]}))
+    if stree:
+        rep.sample({"scoped_program_source": sjobs[-1]["sources"]["a.asm"], "wrapper": sidx[-1][1],
+                    "expected_bytes": stree[-1]["bytes"]})
     wraps = [w for res in results for w in res.get("wraps", []) if w]
     if wraps:
         wv = tracecheck.validate("BodyCollect_Trace", [[{"a": "WRAP", "ops": w}] for w in wraps], timeout=900)
@@ -535,7 +640,18 @@ def main(tier):
                  longest=max(map(len, wraps)))
         if not wv.accepted:
             rep.drift("a wrapped region does not meet BodyCollect.Wrappable: %s" % wv.fail_event.get("ops")[:60])
-    rep.part("systematic_wraps", sources_with_constructs=sum(1 for x in results if x.get("constructs")))
+    lwraps = [(x["test"], w, x.get("runops", [])) for x in results for w in x.get("localwraps", []) if w]
+    if lwraps:
+        lv = tracecheck.validate("BodyCollect_Trace", [[{"a": "WRAPLOCAL", "ops": w, "run": ro}] for (_, w, ro) in lwraps],
+                                 timeout=900)
+        rep.cov["states"] += lv.states
+        rep.cov["transitions"] += lv.generated
+        rep.part("BodyCollect_Trace(local)", whole_files_in_plain_macro=len(lwraps), accepted=lv.accepted,
+                 tests=sorted(t_ for (t_, _, _) in lwraps)[:80])
+        if not lv.accepted:
+            rep.drift("a whole-file plain-macro wrap does not meet BodyCollect.LocalWrappable: %s" % str(lv.fail_event)[:200])
+    rep.part("systematic_wraps", sources_with_constructs=sum(1 for x in results if x.get("constructs")),
+             whole_file_plain_macro_wraps=len(lwraps))
     # (M)+(G) the line reader: continuation chains x line ends ------------------------------------------
     with Phase("TLC SourceLine_RL"):
         rl = tlc.must(tlc.run("SourceLine_RL", "SourceLine_RL.cfg" if quick else "SourceLine_RL4.cfg", workers=min(NCPU, 8),
@@ -609,7 +725,9 @@ def main(tier):
              "seed-chosen vector from the 22680 rendering choices TLC enumerates for SourceLine.tla's Render, per file "
              "one of the 18 file vectors (wrap none/include/macro x blank lines x LF/CRLF/mixed), per statement with a "
              "compound parameter one of the gap vectors of SourceLine_Nest; plus every generated compound statement x "
-             "gap vector (code = code of the single-blank spelling); distinct = "
+             "gap vector (code = code of the single-blank spelling); plus every scoped program of SymScope_MC (label "
+             "referenced from nested expansions) x wrapper, code = the code TLC computed; plus the whole main file in a "
+             "plain macro for the sources BodyCollect.LocalWrappable admits; distinct = "
              "(test, file vector, number of rewritten lines); non-trivial = at least one line or the file was changed",
         exhaustive=False)
 
@@ -619,6 +737,13 @@ def replay(path):
     v = json.load(open(os.path.join(path, "violation.json")))
     bld = build.get("hook")
     case = v["case"]
+    if "scope" in case:
+        srcs = {f: open(os.path.join(path, f)).read() for f in os.listdir(path) if f.endswith((".asm", ".inc"))}
+        a = aslrun.assemble(bld, srcs, opts=["-q"])
+        got = [x for rec_ in a.parsed().data_records() for x in rec_.data] if a.p is not None else None
+        log("replay (%s): rc=%s code %s, specification expects %s\n%s" % (case["form"], a.rc, got, case["bytes"], a.out + a.err))
+        log("recorded: %s" % v["what"])
+        return 0
     if "tree" in case:
         srcs = {f: open(os.path.join(path, f)).read() for f in os.listdir(path) if f.endswith((".asm", ".inc"))}
         a = aslrun.assemble(bld, srcs, opts=["-q"])
